@@ -1191,8 +1191,10 @@ def _run(ctx, torch):
         "and polynomial equivariance inside the exactness range.  A case is one compared (function, input) resp. one configuration; all "
         "distinct inputs are hashed as non-trivial.")
     ctx.assumptions += [
-        "the Legendre factor P = o3.Legendre(range(lmax+1))(cos β, |sin β|) and the Wigner buffer SO3Grid.D are DATA taken from the real code "
-        "(their correctness is C05 / C04); C11 checks what _s2grid/_so3grid do with them, and KRExact / WignerGridOrth are checked numerically per configuration",
+        "the forward / buffer streams of the driver take the Legendre factor P = o3.Legendre(range(lmax+1))(cos β, |sin β|) and the Wigner buffer SO3Grid.D as DATA from the real code; "
+        "since round 4 the Legendre factor is ALSO a model: the table regenerated by translator T5 (Generated/Legendre.lean) is compared with the real factor on the grid (stream 'legendre'), "
+        "KRExact is a theorem for lmax <= 11 (Props/C11Leg.lean) and the table times sha is the Cartesian harmonic of the grid point (Props/C11Ang.lean, lmax <= 8 / 11); "
+        "beyond lmax 11 KRExact, and for SO3Grid WignerGridOrth, are checked numerically per configuration",
         "torch.fft.rfft / irfft ≡ the DFT definitions rfftRe/rfftIm/irfftOddDef of the model: trusted, spot-checked (obligation trusted:torch.fft=DFT-definition)",
         "Float model vs float64 code compared with tolerance (1e-12 forward, 1e-13 buffers, 1e-14/1e-15 weights and grids), theorems are about the ℝ instance of the same definitions",
         "the model is one batch element at a time; batch shapes are checked on the real code only (oracle batch-shapes)",
